@@ -99,11 +99,19 @@ def check(run):
     if not thorough:
         specs = [s for i, s in enumerate(specs) if i % 2 == run.seed % 2 or s.prefix == "é界/"]
     r = gen.rng_for(run.seed, "c03")
-    for i in range(1500 if thorough else 200):
+    for i in range(4000 if thorough else 600):
         s = strgen.build(r, "R%d" % i, list(A_DERIVES), allow_default=False, allow_aci=False, allow_prefix=True, distinct_lengths=True,
-                         generics_pool=(None, None, "T", "N", "Tw"), n=r.choice([1, 2, 3, 5, 7]), dup_within_variant=False)
+                         generics_pool=(None, None, "T", "N", "Tw", "Tdef"), n=r.choice([1, 2, 3, 5, 7]), dup_within_variant=False, allow_braces=True)
         s.const_into_str = r.random() < 0.4
         specs.append(s)
+    # canonical names shared by several variants (legal without EnumString): VARIANTS keeps one entry per variant
+    from . import c08
+    for di, (vs, style) in enumerate(c08.DUP_SHAPES):
+        for pref in (None, "p:"):
+            variants = [Variant(ident=i, kind=["unit", "tuple", "named"][(j + di) % 3], serialize=list(a.get("serialize", [])), to_string=a.get("to_string")) for j, (i, a) in enumerate(vs)]
+            for v in variants:
+                v.fields = [] if v.kind == "unit" else ([Field("u8")] if v.kind == "tuple" else [Field("bool", name="f")])
+            specs.append(EnumSpec(name="D%d" % len(specs), variants=variants, serialize_all=style, prefix=pref, derives=list(A_DERIVES)))
     units = []
     for s in specs:
         units.append(shards.Unit("u_" + s.name.lower() + "_a", glue(s), meta={"enum_src": s.render()}, sig="A," + s.signature()))
